@@ -260,6 +260,11 @@ followed by same-timestamp, consecutively numbered packets without marker grows 
 ever.  (Finding `klv-unbounded` in known-findings.txt; replayed on the real decoder by the corpus
 case `klv-corpus-unbounded`.) -/
 
+/-- (F) regenerated from /repo on every run: `rtpklv/decoder.go` mentions no maximum size at all.
+If a cap is ever added this stops compiling and the negative theorem below must be replaced by
+`c08_retained_le`. -/
+theorem c08_no_cap_in_code : Rtsp.Facts.CodecMisc.klvHasSizeCap = false := by decide
+
 def growPkt (sq : UInt16) : Pkt := { seq := sq, ts := 0, marker := false, payload := [0] }
 
 def growFrom (sq : UInt16) : Nat → List Pkt
